@@ -1425,6 +1425,114 @@ def _stored_filters(repo: Repo, res: Result, m: FuncInfo, what: str, translate: 
     res.add("C11.R3", f"{m.relpath}::{m.qualname}::one filter per {what}", not dropped, f"every given {what} yields exactly one filter, which is stored in the rule" if not dropped else dropped[0] + f": not every given {what} yields a filter", where(view, view.node), kind="structural")
 
 
+def _store_signature(repo: Repo, m: FuncInfo):
+    """Where and when the public method `m` of Rule stores the filters it builds from its parameter:
+    ({(state field, how): guard formula with the parameter renamed}, reason why the signature is not fully known or '')."""
+    import re as _re
+
+    from core.guards import TRUE
+
+    T = types_of(repo)
+    view = inline_view(repo, m, T, allow=_allow_r3)
+    fn = Fn(repo, view)
+    co = Collections(fn)
+    param = view.param_names[1]
+    sig: dict[tuple[str, str], object] = {}
+    unknown = ""
+
+    def rename(f):  # noqa: ANN001
+        if f[0] == "atom":
+            return ("atom", _re.sub(rf"\b{_re.escape(param)}\b", "<given>", f[1]))
+        if f[0] == "not":
+            return ("not", rename(f[1]))
+        if f[0] in ("and", "or"):
+            return (f[0], [rename(x) for x in f[1]])
+        return f
+
+    def place(e: ast.AST) -> str:
+        """`self._configuration.modules_to_check` for the target, through local aliases of parts of the object"""
+        if isinstance(e, ast.Attribute):
+            return f"{place(e.value)}.{e.attr}"
+        if isinstance(e, ast.Subscript):
+            return f"{place(e.value)}[{norm(e.slice, 40)}]"
+        if isinstance(e, ast.Name) and e.id != "self" and parent(e) is not None and e.id not in fn.params:
+            x = fn.expand(e)
+            if x is not e and not isinstance(x, ast.Name):
+                return place(x)
+        return norm(e, 60)
+
+    for stmt, value in _self_sinks(view, fn):
+        d = co.normalise(co.describe(value))
+        if not any(any(param in names_loaded(b.source) for b in c.binders) or (c.elt is not None and (param in names_loaded(c.elt) or _builds_filter(fn, c.elt))) for c in d.contribs):
+            continue
+        g = rename(guard_formula(view, stmt_of(stmt) if not isinstance(stmt, ast.stmt) else stmt))
+        entries: list[tuple[str, str, object]] = []
+        if isinstance(stmt, ast.Assign):
+            for t in stmt.targets:
+                if isinstance(t, (ast.Attribute, ast.Subscript)):
+                    entries.append((place(t), "assign", g))
+        elif isinstance(stmt, ast.Call) and isinstance(stmt.func, ast.Name):  # setattr(obj, name, value)
+            name = fn.expand(stmt.args[1]) if parent(stmt.args[1]) is not None else stmt.args[1]
+            if isinstance(name, ast.Constant) and isinstance(name.value, str):
+                entries.append((f"{place(stmt.args[0])}.{name.value}", "assign", g))
+            elif isinstance(name, ast.IfExp) and all(isinstance(x, ast.Constant) and isinstance(x.value, str) for x in (name.body, name.orelse)):
+                from core.guards import f_and, f_not, to_formula
+
+                c = rename(to_formula(name.test))
+                entries.append((f"{place(stmt.args[0])}.{name.body.value}", "assign", f_and([g, c])))
+                entries.append((f"{place(stmt.args[0])}.{name.orelse.value}", "assign", f_and([g, f_not(c)])))
+            elif not (names_loaded(name) - {"self"}):
+                # chosen by an expression over the rule's own state: comparable when both methods spell it alike
+                entries.append((f"{place(stmt.args[0])}.<{norm(name, 80)}>", "assign", g))
+            else:
+                unknown = unknown or f"`{norm(stmt, 60)}` chooses the field by a computed name"
+        elif isinstance(stmt, ast.Call) and isinstance(stmt.func, ast.Attribute):
+            entries.append((place(stmt.func.value), stmt.func.attr, g))
+        for fld, how, gg in entries:
+            k = (fld, how)
+            sig[k] = f_or([sig[k], gg]) if k in sig else gg
+    return sig, unknown, view
+
+
+def _same_store(repo: Repo, res: Result, partial: FuncInfo, regex: FuncInfo) -> None:
+    """The deprecated partial-name form configures the rule exactly like the regex form: the filters go to the same state
+    fields, in the same way (replace / extend), under equivalent conditions - only the pattern text differs (C11.R3 above)."""
+    from core.guards import atoms_of, equivalent
+    from core.guards import show as show_formula
+
+    key = f"{partial.relpath}::{partial.qualname}::stores like have_name_matching"
+    sa, ua, va = _store_signature(repo, partial)
+    sb, ub, vb = _store_signature(repo, regex)
+    if ua or ub or not sa or not sb:
+        res.undecide("C11.R3", key, ua or ub or "no store of the filters into the rule's state was recognised in one of the two methods", where(va, va.node))
+        return
+    only_a = sorted(set(sa) - set(sb))
+    only_b = sorted(set(sb) - set(sa))
+    if any("<" in k[0] for k in only_a + only_b):
+        res.undecide("C11.R3", key, f"the state field is chosen by a computed name (`{[k[0] for k in only_a + only_b if '<' in k[0]][0]}`) in one of the two methods only", where(va, va.node))
+        return
+    if only_a or only_b:
+        fa = sorted({k[0] for k in sa})
+        fb = sorted({k[0] for k in sb})
+        if fa == fb:
+            k = (only_a or only_b)[0]
+            other = next(x for x in (sb if only_a else sa) if x[0] == k[0])
+            why = f"have_name_containing stores its filters into `{k[0]}` by `{(k if only_a else other)[1]}`, have_name_matching by `{(other if only_a else k)[1]}`"
+        else:
+            why = f"have_name_containing stores its filters into {fa}, have_name_matching into {fb}"
+        res.add("C11.R3", key, False, why + ": a rule given by a partial name is not configured like the rule given by the translated regex", where(va, va.node), kind="structural")
+        return
+    for k in sorted(sa):
+        if equivalent(sa[k], sb[k]):
+            continue
+        if atoms_of(sa[k]) == atoms_of(sb[k]):
+            res.add("C11.R3", key, False, f"have_name_containing stores into `{k[0]}` when `{show_formula(sa[k])}`, have_name_matching when `{show_formula(sb[k])}`: a rule given by a partial name is not configured like the rule given by the translated regex", where(va, va.node), kind="structural")
+        else:
+            res.undecide("C11.R3", key, f"the conditions under which `{k[0]}` is stored are spelled differently in the two methods (`{show_formula(sa[k])}` / `{show_formula(sb[k])}`)", where(va, va.node))
+        return
+    res.add("C11.R3", key, True, f"both forms store their filters into {sorted({k[0] for k in sa})} in the same way and under equivalent conditions", where(va, va.node), kind="structural")
+
+
 def run_r3(repo: Repo, res: Result) -> None:
     rule = repo.cls(RULE, "Rule")
     m = rule.methods.get("have_name_containing")
@@ -1436,6 +1544,8 @@ def run_r3(repo: Repo, res: Result) -> None:
     if hm is None:
         raise AnalysisError("Rule.have_name_matching not found")
     _stored_filters(repo, res, hm, "regex", False)
+    if m is not None:
+        _same_store(repo, res, m, hm)
 
 
 # --------------------------------------------------------------------------------------------------------------- C11.R4
